@@ -133,9 +133,11 @@ Inductive Final (s : state) (r : result) : Prop :=
 
 (* the call waits for something its thread alone will never get *)
 Inductive Blocked (s : state) : Prop :=
-| BlkTL a : thr s t = mkthr p [] (PTLAcq a None) res0 cs0 -> b' = true -> timed_T = None -> tl_try ob0 t = None -> Blocked s
+| BlkTL a : thr s t = mkthr p [] (PTLAcq a None) res0 cs0 -> b' = true -> timed_T = None -> tl_try ob0 t = None ->
+            (forall o', o_fd (objs s o') = o_fd (objs s0 o')) -> Blocked s
 | BlkOS a d : thr s t = mkthr p [] (PFlock a d) res0 cs0 -> b' = true -> timed_T = None -> o_fd ob0 = None ->
-              tl_try ob0 t <> None -> holder s0 <> None -> Blocked s.
+              tl_try ob0 t <> None -> holder s0 <> None ->
+              (forall o', o_fd (objs s o') = o_fd (objs s0 o')) -> Blocked s.
 
 Hypothesis Halive : dead s0 p = false.
 Hypothesis Hh0 : forall h, holder s0 = Some h -> (h < nextfd s0)%nat.
@@ -283,7 +285,8 @@ Proof.
            ++ apply Frame_now; auto.
            ++ repeat split; auto; cbn; first [lia | rewrite Eb, ET; reflexivity].
       * right. right. right. split; auto. split; [unfold deadline; now rewrite Tpc|].
-        apply (BlkTL _ a); auto. unfold timed_T. destruct tm'; auto. discriminate.
+        apply (BlkTL _ a); auto; [unfold timed_T; destruct tm'; auto; discriminate|].
+        intros o'. destruct (Nat.eq_dec o' o) as [->|Hne]; [now rewrite Ho|now rewrite (f_obj _ _ _ F)].
     + left. split; auto. apply Efail; auto. subst dl. repeat split; auto. intros T ET. lia.
 Qed.
 
@@ -378,7 +381,8 @@ Proof.
   - right. right. right. split; auto. symmetry in En.
     destruct b' eqn:Eb; [|discriminate]. destruct tm' as [| |T] eqn:ET; try discriminate; cbn in En;
       apply orb_false_elim in En; destruct En as [E1 E2];
-      (split; [unfold deadline; now rewrite Tpc|]); apply (BlkOS _ a d); auto; unfold timed_T; rewrite ?ET; auto.
+      (split; [unfold deadline; now rewrite Tpc|]); apply (BlkOS _ a d); auto; try (unfold timed_T; rewrite ?ET; now auto);
+      intros o'; (destruct (Nat.eq_dec o' o) as [->|Hne]; [now rewrite Ho|now rewrite (f_obj _ _ _ F)]).
 Qed.
 
 Lemma phase3c_step s a d :
